@@ -261,6 +261,74 @@ def d5(ctx, prog):
     ctx.note(f'TTestAnalysis.run calls stop() on its accumulators: {calls_stop}')
 
 
+def d6(ctx, prog, kernel):
+    """dimensional analysis of Welch's t: the kernel gives sum: u n and sum_squared: u^2 n (bound at its call site), the count n;
+    compute() must produce mean: u and var: u^2 from homogeneous expressions; the analysis must return a value of dimension
+    u^0 n^(1/2) (scale free; grows like sqrt(n) when every trace is duplicated) and divide each variance by the count of the
+    *same* accumulator."""
+    from . import dims
+    from .. import units, kernels
+    acc = prog.need_class(TT, 'TTestThreadAccumulator')
+    ana = prog.need_class(TT, 'TTestAnalysis')
+    upd = prog.resolve_method(acc, 'update')
+    comp = prog.resolve_method(acc, 'compute')
+    acomp = prog.resolve_method(ana, '_compute')
+    tp = kernel.params[0]
+    contrib, xk = dims.contributions(prog, kernel, {tp: dims.U(u=1), **{p_: units.CONST for p_ in kernel.params[1:] if 'prec' in p_}}, {tp})
+    dims.report_mismatches(ctx, 'C09-D6', kernel, xk)
+    calls = [c for c in ast.walk(upd.node) if isinstance(c, ast.Call) and isinstance(c.func, ast.Attribute) and c.func.attr == kernel.name]
+    key = f'{acc.key}::dimensions'
+    if len(calls) != 1:
+        ctx.undecided('C09-D6', key, 'call site of the accumulation kernel not found', upd.where())
+        return 0
+    amap = kernels.call_arg_map(kernel, calls[0])
+    attrs = {}
+    for p_, dm in contrib.items():
+        a = amap.get(p_)
+        if a is not None and self_attr(a):
+            attrs[self_attr(a)] = dm
+    xu = units.Units(upd, seeds={upd.params[1]: dims.U(u=1)}, carries={upd.params[1]}, prog=prog).run()
+    for name, dm, node, how in xu.contrib:
+        if how == 'add' and name not in attrs:
+            attrs[name] = dm
+    if len(attrs) < 3 or any(v is units.TOP for v in attrs.values()):
+        ctx.undecided('C09-D6', key, f'accumulator dimensions not derivable ({ {k: units.show(v) for k, v in attrs.items()} })', upd.where())
+        return 0
+    xc = units.Units(comp, attrs=dict(attrs), prog=prog).run()
+    nm = dims.report_mismatches(ctx, 'C09-D6', comp, xc)
+    derived = {name: dm for name, dm, node, how in xc.contrib if how == 'assign'}
+    want = {'mean': dims.U(u=1), 'var': dims.U(u=2)}
+    n = 0
+    for a, w in want.items():
+        n += 1
+        if a not in derived or derived[a] is units.TOP:
+            if not nm:
+                ctx.undecided('C09-D6', f'{comp.key}::self.{a}', f'dimension of self.{a} not derivable', comp.where())
+            continue
+        ctx.check(derived[a] == w, 'C09-D6', f'{comp.key}::self.{a}', f'self.{a} has dimension {units.show(derived[a])}, a {a} has {units.show(w)} (sum: {units.show(attrs.get("sum"))}, '
+                  f'sum_squared: {units.show(attrs.get("sum_squared"))}, count: {units.show(attrs.get("processed_traces"))})', f'self.{a}: {units.show(w)}', comp.where())
+    oattrs = {'*.' + a: d for a, d in {**attrs, **{k: v for k, v in derived.items() if v is not units.TOP}}.items()}
+    xa = units.Units(acomp, attrs=oattrs, prog=prog).run()
+    nm2 = dims.report_mismatches(ctx, 'C09-D6', acomp, xa)
+    res = [dm for name, dm, node, how in xa.contrib if name == 'result' and how == 'assign'] + [d for d, _ in xa.returns]
+    n += 1
+    wantr = dims.U(n='1/2')
+    if not res or any(r is units.TOP for r in res):
+        if not nm2:
+            ctx.undecided('C09-D6', f'{acomp.key}::result', 'dimension of the t statistic not derivable', acomp.where())
+    else:
+        ctx.check(all(r == wantr for r in res), 'C09-D6', f'{acomp.key}::result', f'the statistic has dimension {units.show(res[0])}; Welch\'s t is scale free and grows like sqrt(n): {units.show(wantr)}',
+                  f'result dimension {units.show(wantr)}', acomp.where())
+    # pairing: each variance is divided by the count of the same accumulator
+    for dv in ast.walk(acomp.node):
+        if isinstance(dv, ast.BinOp) and isinstance(dv.op, ast.Div) and isinstance(dv.left, ast.Attribute) and isinstance(dv.right, ast.Attribute) \
+                and dv.right.attr == 'processed_traces' and dv.left.attr in ('var', 'mean', 'sum', 'sum_squared'):
+            n += 1
+            ctx.check(norm(dv.left.value) == norm(dv.right.value), 'C09-D6', f'{acomp.key}::{norm(dv)[:70]}', f'`{norm(dv)}` divides the {dv.left.attr} of one trace set by the number of traces of the other',
+                      f'{dv.left.attr} and count of the same accumulator', acomp.where(dv))
+    return n
+
+
 def run(ctx, prog):
     ctx.rule('C09-D5', 'stop-request typestate: the accumulator clears its stop flag on every path before entering the batch loop')
     ctx.rule('C09-D1', 'the two accumulation threads share no writable object: distinct accumulators, stores only to self/locals, staticmethod kernel bound to instance arrays, shared container code writes no global/class state')
@@ -288,5 +356,7 @@ def run(ctx, prog):
         ctx._add(o)
     d4(ctx, prog)
     d5(ctx, prog)
+    ctx.rule('C09-D6', 'dimensional analysis: sum u n, sum_squared u^2 n, count n (from the kernel and update); mean u, var u^2 from homogeneous expressions; t statistic u^0 n^(1/2); each variance divided by the count of its own accumulator')
+    ctx.floor('dimension obligations (t-test)', d6(ctx, prog, k), 4)
     ctx.floor('prange loops in the t-test kernel', n, 1)
     ctx.floor('C01 obligations on the t-test accumulator', len(sub.obs), 6)
